@@ -15,6 +15,9 @@ CHECKS = {
  "C06": dict(level=MC, design="2/C06", technique="symbolic execution of the real reader on the writer's output with a symbolic stream limit k (all cut positions inside one read share a path)",
    text="The cut position is a solver variable ranging over every strict prefix length; each read forks once on 'fits before the cut'; on every feasible path the only admissible outcome is BufferUnderflow.",
    note="Same instance bounds as C01; the source model never blocks (a reader that blocks on a real socket is outside). Trusted: Src model, z3."),
+ "C11": dict(level=MC, design="2/C11", technique="symbolic execution of each public reader/writer on proxy values against bit-level spec formulas (z3 QF_BV); time conversions in integer/real arithmetic with the standard model of IEEE rounding",
+   text="One lemma per public primitive reader/writer: the real function runs on solver variables ranging over the whole value domain (all ints of the width, every 6/11-byte varint input, every length region, all whole-millisecond durations/timestamps) and the output is compared with an independently written arithmetic specification; reader-after-writer identity and refusal outside the domain are separate clauses.",
+   note="Bounds per lemma are listed in the evidence. Float arithmetic in the time writers is over-approximated by the IEEE standard model (A5): unsat is a proof in the range, sat models are replayed on the real code. Trusted: struct/datetime models, z3."),
 }
 
 def cmd(i, tier):
